@@ -91,6 +91,24 @@ Record dag_wf (G : pidag) : Prop := mk_dag_wf {
   (** the edges follow a strict order of the leaves: the graph is acyclic *)
   wf_acyclic : exists rank : Z -> nat, forall e, In e (gE G) -> (rank (eu e) < rank (ev e))%nat }.
 
+(** the work totals of a recorded tree are consistent (C18: dr_accumulate_stats): t_1 of an expanded
+    section/task is the sum over its subgraphs, a create_task subgraph counting together with the task
+    it created *)
+Definition t1_w (t : tree) : Z :=
+  match t with Create d c => t_t1 d + t_t1 (tdata c) | _ => t_t1 (tdata t) end.
+Fixpoint t1_ok (t : tree) : bool :=
+  match t with
+  | Leaf _ => true
+  | Create _ c => t1_ok c
+  | Sub d cs =>
+      (match cs with [] => true | _ :: _ => t_t1 d =? fold_right (fun c a => t1_w c + a) 0 cs end)
+      && (fix all (l : list tree) : bool := match l with [] => true | c :: r => t1_ok c && all r end) cs
+  end.
+
+(** all info words except the two string-table indices *)
+Definition info_eq (y x : node) : Prop :=
+  forall k, (k < N_info)%nat -> k <> F_start_fidx -> k <> F_end_fidx -> getf k y = getf k x.
+
 (** what the replay did to the nodes, read off the log of processed events *)
 Definition events_of (l : list event) (u : Z) : list Z :=
   map ekind (filter (fun e => enode e =? u) (rev l)).
